@@ -697,6 +697,12 @@ def apply(func, args, kwargs=None):
         if len(flat) == 1:
             return flat[0]
         return Rat.of_atom(atom(func, tuple(flat)))
+    if func == "ifexp" and len(args) == 3 and x is not None and not extra:
+        c = x.const_value()
+        if c is not None:
+            return args[1] if c != 0 else args[2]
+        if isinstance(args[1], Rat) and isinstance(args[2], Rat) and args[1].key() == args[2].key():
+            return args[1]
     if func == "not" and x is not None:
         c = x.const_value()
         if c is not None:
@@ -765,6 +771,13 @@ def map_atoms(r, fn):
             return map_atoms(rep, fn) if rep.key() != Rat.of_atom(at).key() else rep
         if at.func.startswith("$") or not at.args:
             return Rat.of_atom(at)
+        if at.func == "ifexp" and len(at.args) == 3 and isinstance(at.args[0], Rat):
+            # lazily: a decided condition selects its branch, the other one (possibly undefined there) is not rebuilt
+            c = map_atoms(at.args[0], fn)
+            cv = c.const_value()
+            if cv is not None:
+                return m_arg(at.args[1] if cv != 0 else at.args[2])
+            return apply("ifexp", [c, m_arg(at.args[1]), m_arg(at.args[2])])
         args = [m_arg(x) for x in at.args]
         if at.func == "base":
             return Rat.of_atom(atom("base", (args[0],)))
